@@ -268,3 +268,17 @@ func TypeName(f spec.Framing, fc uint8, request bool) string {
 
 // GoType returns fmt's %T of v.
 func GoType(v interface{}) string { return fmt.Sprintf("%T", v) }
+
+// NewWriteCoilsRequest builds a Write Multiple Coils request from the caller's own coil slice (NewRequest derives a fresh slice from the
+// packed payload): checks use it to hand the constructors a sub-slice of a longer pattern, as a program writing a long pattern in chunks does.
+func NewWriteCoilsRequest(f spec.Framing, unit uint8, tx uint16, addr uint16, coils []bool) (packet.Request, error) {
+	if f == spec.TCP {
+		q, err := packet.NewWriteMultipleCoilsRequestTCP(unit, addr, coils)
+		if err != nil {
+			return nil, err
+		}
+		q.TransactionID = tx
+		return q, nil
+	}
+	return nilIfErr(packet.NewWriteMultipleCoilsRequestRTU(unit, addr, coils))
+}
